@@ -1,5 +1,7 @@
 SPECIFICATION Spec
 CONSTANTS
+  MaxRuns = 1
+  ReuseStaleTemp = FALSE
   Scenarios <- MCScenarios
   MaxFiles = 2
 INVARIANT Emit
